@@ -17,7 +17,8 @@ Local Open Scope Z_scope.
 Definition is_work (m : mop) : bool :=
   match m with
   | MActs _ | MPopFrame | MEndBody _ _ | MRunItem _ | MDropItem _ | MDropInner _ | MDropVal _
-  | MDropOwn _ _ | MDropRef _ | MRetInvoke _ _ | MValDrop _ | MDelDone | MTerminate _ _ | MLogClose _ _ | MToReady _ => true
+  | MDropOwn _ _ | MDropRef _ | MRetInvoke _ _ | MValDrop _ | MDelDone _ _ | MOrphNew _ | MOrphDrop _
+  | MTerminate _ _ | MLogClose _ _ | MToReady _ => true
   | _ => false
   end.
 
@@ -206,7 +207,7 @@ Proof.
   - (* MEndBody *)
     split; [|reflexivity].
     destruct (frames s) as [|fr rest]; inversion H; subst; [reflexivity|].
-    rewrite forallb_app, work_drops. destruct f; try reflexivity; destruct (f_die fr); try reflexivity.
+    rewrite forallb_app, work_drops. destruct f; try reflexivity; destruct (f_die fr); try reflexivity;
     destruct ready; reflexivity.
   - (* MRunItem *) split; [eapply run_item_work; eauto | reflexivity].
   - apply drop_item_quiet in H as [A B]. split; auto. rewrite B; discriminate.
@@ -215,6 +216,8 @@ Proof.
   - apply drop_own_quiet in H as [A B]. split; auto. rewrite B; discriminate.
   - apply drop_ref_quiet in H as [A B]. split; auto. rewrite B; discriminate.
   - apply ret_invoke_quiet in H as [A B]. split; auto. rewrite B; discriminate.
+  - inversion H; subst. split; [reflexivity | discriminate].
+  - inversion H; subst. split; [reflexivity | discriminate].
   - inversion H; subst. split; [reflexivity | discriminate].
   - inversion H; subst. split; [reflexivity | discriminate].
   - apply terminate_quiet in H as [A B]. split; auto. rewrite B; discriminate.
